@@ -100,6 +100,10 @@ def render_events(prop, fmt, lang, batch_dicts, real, add, meta_base):
             doc = lexers.lex_jigg(text)
             got = [[s, t] for s, sent in enumerate(doc, 1) for t in range(1, len(sent['ccgs']) + 1)]
             add({'e': 'numbering', 'p': prop, 'fmt': fmt, 'expect': expect, 'got': got}, meta)
+            if prop == 'C15':
+                # C15 states the self-containedness of a sentence element: ids over all its n-best ccg elements
+                for sent in doc:
+                    add({'e': 'jsent', 'p': prop, 'fmt': fmt, 'spanids': [sp['id'] for c in sent['ccgs'] for sp in c['spans']], 'ccgids': [c['id'] for c in sent['ccgs']]}, meta)
             for sent_d, sent in zip(projs, doc):
                 for i, (d, ccg) in enumerate(zip(sent_d, sent['ccgs'])):
                     add({'e': 'tree', 'p': prop, 'fmt': fmt, 'd': d, 'ccg': ccg, 'toks': sent['tokens'], 'usesym': lang == 'ja', 'first': i == 0}, meta)
